@@ -26,6 +26,7 @@ DOC = {
         "set_value_from_optimization."
     ),
     "rules": {
+        "C11-R5": "both conversions refresh expression parameters first/last; the refresh touches exactly the parameters whose expression is set now, so a parameter released from its expression (expression = None, vary = True) keeps the value the optimiser gave it (shared with C12-R2)",
         "C11-R1": "get_value_and_bounds_for_optimization returns (value, minimum, maximum) with _log_value applied to all three exactly when non_negative; set_value_from_optimization stores exp(x) exactly when non_negative; _log_value is log(value) with pass-through of non-finite values",
         "C11-R2": "a parameter is exported iff `not exclude_non_vary or parameter.vary`; Optimizer.optimize asks for exclude_non_vary=True; set_transformed_expression sets vary=False on every path that installs an expression",
         "C11-R3": "label, value, lower and upper bound of a parameter are appended together, from one get_value_and_bounds_for_optimization call, and returned/unpacked in one order; bounds=(lower, upper), x0=values; the same label list is used for the optimiser vector, the optimum and the standard errors",
@@ -376,9 +377,16 @@ def history_pair(ctx, rule: str = "C11-R4") -> None:
 
 
 
+def r5(ctx) -> None:
+    """What the export/import of the optimiser vector refreshes (shared with C12-R2)."""
+    from glint.rules import c12
+
+    c12.r2(ctx, rule="C11-R5")
+
+
 def check(ctx) -> None:
     for g in check.groups:
         g(ctx)
 
 
-check.groups = [r1, r2, r3, r4]
+check.groups = [r1, r2, r3, r4, r5]
